@@ -666,8 +666,10 @@ class DFA:
 
     def mark_accepting(self, state):
         if isinstance(state, int):
-            self.accepting_states.append(DFState.all_states[state])
-        else:
+            state = DFState.all_states[state]
+        # accepting_states is a list for ordering purposes only; a state listed twice would have finish actions
+        # chained into it twice (chain_actions_into) and would survive a single remove() in append_after
+        if state not in self.accepting_states:
             self.accepting_states.append(state)
 
     def simulate(self, actions):
